@@ -20,27 +20,30 @@ import (
 // Task is one goroutine of the system under test (or a harness client),
 // parked at an inserted yield point whenever it is not the one chosen to run.
 type Task struct {
-	Path   []int // spawn path: the task's identity, independent of arrival order and goroutine ids
-	ID     string
-	Seq    int // creation order
-	goid   uint64
-	wake   chan struct{}
-	site   string
-	nchild int
-	Client bool
-	Done   bool          // clients only: fn returned (or the goroutine ended)
-	sleep  time.Duration // requested fake-clock advance before the next release
-	prio   int
-	runs   int
-	held   int             // modelled locks held: no yields inside a critical section
-	heldW  map[uintptr]int // write locks this task took, by lock identity
+	waitingSince int   // scheduler step at which the task last became schedulable
+	Path         []int // spawn path: the task's identity, independent of arrival order and goroutine ids
+	ID           string
+	Seq          int // creation order
+	goid         uint64
+	wake         chan struct{}
+	site         string
+	nchild       int
+	Client       bool
+	Consumer     bool          // a harness consumer of the channels under test (lazy / eager strategies treat it like an actor)
+	Done         bool          // clients only: fn returned (or the goroutine ended)
+	sleep        time.Duration // requested fake-clock advance before the next release
+	prio         int
+	runs         int
+	held         int             // modelled locks held: no yields inside a critical section
+	heldW        map[uintptr]int // write locks this task took, by lock identity
 }
 
 // Actor is a simulator-owned action executed by the scheduler goroutine itself
 // at a quiescent point (a consumer taking from a channel, for example).
 type Actor struct {
-	Name    string
-	Enabled func() bool
+	waitingSince int
+	Name         string
+	Enabled      func() bool
 	// Run returns a short outcome label for the event log and whether it made
 	// progress (a receive that found nothing to receive did not).
 	Run  func() (string, bool)
@@ -106,6 +109,9 @@ type Sim struct {
 	MaxLive   int
 	Strategy  string
 	Stale     int // reservations that were never claimed
+	idleSlept bool
+	arrivedCh chan struct{} // poked whenever a task parks (lets an idle scheduler stop waiting for timers)
+	consec    int
 }
 
 func goid() uint64 {
@@ -144,7 +150,7 @@ func pathLess(a, b []int) bool {
 
 // NewSim creates a scheduler; it must be created and run on the bubble's root goroutine.
 func NewSim(t *Tape) *Sim {
-	return &Sim{T: t, MaxSteps: 1 << 20, MaxTasks: 20000, tasks: map[uint64]*Task{}, rootG: goid(), h: 14695981039346656037}
+	return &Sim{T: t, MaxSteps: 1 << 20, MaxTasks: 20000, tasks: map[uint64]*Task{}, rootG: goid(), h: 14695981039346656037, arrivedCh: make(chan struct{}, 1)}
 }
 
 func (s *Sim) logEvent(ev string) {
@@ -211,6 +217,10 @@ func (s *Sim) hook(site string) {
 	t.site = site
 	s.arrived = append(s.arrived, t)
 	s.mu.Unlock()
+	select {
+	case s.arrivedCh <- struct{}{}:
+	default:
+	}
 	<-t.wake
 	if s.aborted.Load() {
 		runtime.Goexit()
@@ -581,6 +591,15 @@ func (s *Sim) Go(fn func()) *Task {
 	return t
 }
 
+// GoConsumer starts a harness consumer task: a real goroutine that blocks in
+// real receives (so that a polling sender can meet it) and yields before each
+// one, which makes "when does the consumer receive" a scheduling decision.
+func (s *Sim) GoConsumer(fn func()) *Task {
+	t := s.Go(fn)
+	t.Consumer = true
+	return t
+}
+
 // AddActor registers a simulator-owned action.
 func (s *Sim) AddActor(a *Actor) { s.actors = append(s.actors, a) }
 
@@ -610,6 +629,8 @@ func (c cand) id() string {
 	}
 	return "@" + c.a.Name
 }
+func (c cand) consumer() bool { return c.a != nil || (c.t != nil && c.t.Consumer) }
+
 func (c cand) site() string {
 	if c.t != nil {
 		return c.t.site
@@ -642,6 +663,7 @@ func (s *Sim) Run() {
 		// merge arrivals into the sorted parked list: the candidate order is a
 		// function of task identities only, never of arrival order
 		for _, a := range s.arrived {
+			a.waitingSince = s.Steps
 			i := sort.Search(len(s.parked), func(i int) bool { return pathLess(a.Path, s.parked[i].Path) })
 			s.parked = append(s.parked, nil)
 			copy(s.parked[i+1:], s.parked[i:])
@@ -699,9 +721,36 @@ func (s *Sim) Run() {
 		if len(cands) == 0 {
 			if s.AllClientsDone() {
 				s.End = EndQuiescent
-			} else {
-				s.End = EndDeadlock
+				break
 			}
+			if !s.idleSlept {
+				// Nothing is schedulable, but a goroutine may be sleeping or waiting for a
+				// timer: let the fake clock run (every goroutine including this one is then
+				// durably blocked, so synctest advances it to the next timer) before
+				// calling it a deadlock.
+				s.idleSlept = true
+				select {
+				case <-s.arrivedCh: // stale signal
+				default:
+				}
+				s.mu.Lock()
+				n := len(s.arrived)
+				s.mu.Unlock()
+				if n == 0 {
+					t0 := time.Now()
+					tm := time.NewTimer(24 * time.Hour)
+					select {
+					case <-s.arrivedCh: // a sleeper woke up and parked at a yield
+						tm.Stop()
+					case <-tm.C:
+					}
+					d := time.Since(t0)
+					s.SimTime += d
+					s.logEvent("clock+idle:" + d.String())
+				}
+				continue
+			}
+			s.End = EndDeadlock
 			break
 		}
 		if s.Steps >= s.MaxSteps {
@@ -716,7 +765,40 @@ func (s *Sim) Run() {
 		if len(cands) > 1 {
 			s.Multi++
 		}
-		c := cands[s.strat.pick(s, cands)]
+		pick := s.strat.pick(s, cands)
+		// bounded starvation: whatever the strategy, a candidate that has been schedulable
+		// for 1000 decisions without being chosen is chosen now (correct code may
+		// spin-wait for exactly the goroutine a strategy is starving)
+		for i, c := range cands {
+			since := 0
+			if c.t != nil {
+				since = c.t.waitingSince
+			} else {
+				since = c.a.waitingSince
+			}
+			if s.Steps-since > 1000 {
+				pick = i
+				break
+			}
+		}
+		// fairness: whatever the strategy, nobody runs more than 300 decisions in a row
+		// while somebody else could - a spin-wait loop in correct code must not be able
+		// to starve the goroutine it is waiting for
+		if cands[pick].id() == s.lastID {
+			s.consec++
+			if s.consec > 300 && len(cands) > 1 {
+				o := s.T.Draw(len(cands) - 1)
+				if o >= pick {
+					o++
+				}
+				pick = o
+				s.consec = 0
+			}
+		} else {
+			s.consec = 0
+		}
+		c := cands[pick]
+		s.idleSlept = false
 		s.lastID = c.id()
 		if c.t != nil {
 			t := c.t
@@ -742,6 +824,7 @@ func (s *Sim) Run() {
 			}
 			t.wake <- struct{}{}
 		} else {
+			c.a.waitingSince = s.Steps
 			r, ok := c.a.Run()
 			s.logEvent("@" + c.a.Name + "=" + r)
 			if ok {
@@ -798,7 +881,14 @@ func Bubble(t *testing.T, f func()) (leak bool, panicked interface{}) {
 			panicked = r
 		}
 	}()
-	synctest.Test(t, func(*testing.T) { f() })
+	synctest.Test(t, func(*testing.T) {
+		f()
+		// from here synctest waits for the bubble's goroutines to end
+		bubbleExiting.Store(true)
+		waitSeq.Add(1)
+	})
+	bubbleExiting.Store(false)
+	waitSeq.Add(1)
 	return
 }
 
@@ -819,10 +909,11 @@ func HashString(s string) uint64 {
 // nothing else, and never for a scheduling decision.
 
 var (
-	waitingSim atomic.Pointer[Sim]
-	waitSeq    atomic.Uint64 // incremented whenever the scheduler enters or leaves Wait
-	inWait     atomic.Bool
-	stallOnce  sync.Once
+	waitingSim    atomic.Pointer[Sim]
+	waitSeq       atomic.Uint64 // incremented whenever the scheduler enters or leaves Wait
+	inWait        atomic.Bool
+	bubbleExiting atomic.Bool // the run has returned; synctest is waiting for its goroutines to end
+	stallOnce     sync.Once
 )
 
 // StallInfo describes a scheduler that has not reached a quiescent point.
@@ -833,6 +924,7 @@ type StallInfo struct {
 	ClientsDone   bool
 	Steps         int
 	Waited        time.Duration
+	BubbleExit    bool // the run is over but goroutines it started neither ended nor blocked durably
 }
 
 func (s *Sim) wait() {
@@ -855,13 +947,17 @@ func StartStallWatch(limit time.Duration, onStall func(StallInfo)) {
 			for {
 				time.Sleep(250 * time.Millisecond)
 				cur := waitSeq.Load()
-				if cur != last || !inWait.Load() {
+				if cur != last || !(inWait.Load() || bubbleExiting.Load()) {
 					last, lastChange = cur, time.Now()
 					continue
 				}
 				waited := time.Since(lastChange)
 				if waited < limit {
 					continue
+				}
+				if bubbleExiting.Load() {
+					onStall(StallInfo{Sim: waitingSim.Load(), Parked: 1, Waited: waited, BubbleExit: true})
+					return
 				}
 				s := waitingSim.Load()
 				if s == nil {
